@@ -161,9 +161,9 @@ def setna(ctx, shape, how, dkind='f', inplace=False, inf=False):
     if how == 'scalar':
         vs = [mk('m0')]
         arg = vs[0]
-    elif how in ('list', 'list3', 'list4'):
-        vs = [mk('m%d' % j) for j in range({'list': 2, 'list3': 3, 'list4': 4}[how])]
-        arg = list(vs)
+    elif how in ('list', 'list3', 'list4', 'tuple', 'ndarray', 'ndarray3'):
+        vs = [mk('m%d' % j) for j in range({'list': 2, 'list3': 3, 'list4': 4, 'tuple': 2, 'ndarray': 2, 'ndarray3': 3}[how])]
+        arg = list(vs) if how.startswith('list') else (tuple(vs) if how == 'tuple' else ctx.nparray(vs, kind=dkind))
     else:
         bits = [bool(ctx.bool('b%d' % j)) for j in range(len(ref.cells))]
         arg = ctx.nparray(bits, shape, kind='b') if how == 'mask' else ctx.mk(dims, labels, bits, kind='b', lkinds=['i', 'U', 'f', 'i'][:nd], register=False)
@@ -173,7 +173,7 @@ def setna(ctx, shape, how, dkind='f', inplace=False, inf=False):
     res = a if inplace else r[1]
     exp = []
     for j, c in enumerate(ref.cells):
-        if how in ('scalar', 'list', 'list3', 'list4'):
+        if how in ('scalar', 'list', 'list3', 'list4', 'tuple', 'ndarray', 'ndarray3'):
             hit = (not ctx.isnan(c)) and any(bool(c == v) for v in vs)
         else:
             hit = bits[j]
@@ -242,6 +242,13 @@ def templates():
                         continue
                     add('setna-%s-%s-%s-%s' % (dk, 'x'.join(map(str, shape)), how, inplace), 'setna', 'quick' if len(shape) < 3 or how in ('mask',) else 'thorough',
                         cost=(0.5 * 2 ** (len(shape) * 2) / 4) if len(shape) < 3 or how == 'mask' else 300, shape=shape, how=how, dkind=dk, inplace=inplace)
+    # several values given in other containers than a list
+    for how in ('tuple', 'ndarray', 'ndarray3'):
+        for shape in ([3], [2, 3], [2, 2]):
+            if how == 'ndarray3' and shape != [3]:
+                continue
+            big = shape == [2, 3]
+            add('setna-%s-%s' % (how, 'x'.join(map(str, shape))), 'setna', 'thorough' if big else 'quick', cost=60 if big else 3, shape=shape, how=how, dkind='i' if shape == [2, 2] else 'f')
     for how in ('list3', 'list4'):
         for dk in 'fi':
             add('setna-%s-%s' % (how, dk), 'setna', cost=3, shape=[3], how=how, dkind=dk)
